@@ -38,6 +38,14 @@ def rel(a, b, tol=1e-12):
 
 def check_case(case):
     res = Res()
+    try:
+        return _check_case(case, res)
+    except Exception as e:   # positive, finite arguments: nothing may raise
+        res.v(("C20.raises", type(e).__name__), "%r: %s" % (case, e))
+        return res
+
+
+def _check_case(case, res):
     w1, w2, l, t, rho, te, tc = case
     r = trace_res(w1_mm=w1, w2_mm=w2, l_mm=l, t_mm=t, rho=rho, temp=te, tcr=tc)
     exact = F(rho) * F(l) / (F(1, 2) * (F(w1) + F(w2)) * F(t) / 1000) * (1 + F(tc) * (F(te) - 20))
